@@ -94,6 +94,7 @@ def run_case(case) -> Result:
             if CREDS[kw["creds"]]["v"] != top["creds"]["v"]:
                 classes.add("family_switch")
             new["creds"] = CREDS[kw["creds"]]
+            new.pop("disco_done", None)      # other credentials: the message layer may be a new one
         if "ctx" in kw:
             new["ctx"] = tuple(kw["ctx"])
         return new
@@ -157,6 +158,14 @@ def run_case(case) -> Result:
                         return "%s: contextEngineID %s on the wire, expected %s" % (where, rec["ctx_engine"].hex(), want_ce.hex())
             elif rec["who"] != top["creds"]["community"].encode():
                 return "%s: community %r on the wire, the credentials in force are %s" % (where, rec["who"], top["creds"])
+        if version == 3:
+            # "behaves exactly as before entering": a configuration level that has already talked to the engine does not
+            # discover it again after an inner block was left (the agent never restarts in these histories)
+            if top.get("disco_done") and any(r.get("disco") for r in seen):
+                classes.add("rediscovery_after_block")
+                return "%s: the engine was discovered AGAIN (%d datagrams for one %s) although this configuration level had already " \
+                       "talked to it before the inner block(s) were entered" % (where, len(seen), kind)
+            top["disco_done"] = True
         return None
 
     def result(msg):
